@@ -756,9 +756,10 @@ def explore(ob: Obligation, known_open=(), tier="quick"):
         stats["decisions"] += c.n_decisions
         covers |= h.covers
         stubs |= set(h.stubs_used)
-        if exc == "abort":
-            continue
-        paths += 1
+        if exc != "abort":
+            paths += 1
+        # clauses evaluated before an abort were evaluated on a feasible prefix of the path: they count (a failed check followed by
+        # an assumption that empties the path must not disappear with it)
         for (name, status, model, info) in h.results:
             a = agg.setdefault(name, {"discharged": 0, "sat": 0, "unknown": 0, "models": [], "info": []})
             a[status] = a.get(status, 0) + 1
@@ -768,6 +769,8 @@ def explore(ob: Obligation, known_open=(), tier="quick"):
                 a["info"].append(str(info))
             if status == "discharged" and isinstance(info, str) and info.endswith("s") and info[:-1].replace(".", "").isdigit():
                 a["max_s"] = max(a.get("max_s", 0.0), float(info[:-1]))
+        if exc == "abort":
+            continue
         if exc is not None:
             if exc[0] == "engine":
                 a = agg.setdefault("@engine", {"discharged": 0, "sat": 0, "unknown": 0, "models": [], "info": []})
@@ -812,8 +815,12 @@ def replay_concrete(ob: Obligation, model, known_open=(), tier="quick", ignore_e
         finally:
             h._restore()
     except ReplayMismatch as e:
+        if h.failed_concrete:       # clauses that failed natively BEFORE a later assumption turned out false still failed
+            return "failed", list(h.failed_concrete), f"(a later assumption is false on this input: {e})"
         return "mismatch", [], str(e)
     except PathAbort:
+        if h.failed_concrete:
+            return "failed", list(h.failed_concrete), "(a later assumption is false on this input)"
         return "mismatch", [], "assumption false"
     except EngineError as e:
         return "mismatch", [], f"engine: {e}"
